@@ -79,7 +79,7 @@ func check(args []string) int {
 	}
 	to := *timeout
 	if to == 0 {
-		to = 10 * time.Second
+		to = 20 * time.Second
 		if *tier == "thorough" {
 			to = 60 * time.Second
 		}
